@@ -88,6 +88,7 @@ func (f *Feed) Subscribe(channel interface{}) Subscription {
 	// The next Send will add it to f.sendCases.
 	cas := reflect.SelectCase{Dir: reflect.SelectSend, Chan: chanval}
 	f.inbox = append(f.inbox, cas)
+	verifPoint(f, "subscribe", chanval)
 	return sub
 }
 
@@ -107,18 +108,23 @@ func (f *Feed) remove(sub *feedSub) {
 	f.mu.Lock()
 	index := f.inbox.find(ch)
 	if index != -1 {
+		verifPoint(f, "remove_inbox", sub.channel)
 		f.inbox = f.inbox.delete(index)
 		f.mu.Unlock()
 		return
 	}
+	verifPoint(f, "remove_notinbox", sub.channel)
 	f.mu.Unlock()
 
 	select {
 	case f.removeSub <- ch:
 		// Send will remove the channel from f.sendCases.
+		verifPoint(f, "remove_handoff", sub.channel)
 	case <-f.sendLock:
 		// No Send is in progress, delete the channel now that we have the send lock.
+		verifPoint(f, "remove_lock", sub.channel)
 		f.sendCases = f.sendCases.delete(f.sendCases.find(ch))
+		verifPoint(f, "remove_unlock", sub.channel)
 		f.sendLock <- struct{}{}
 	}
 }
@@ -130,11 +136,13 @@ func (f *Feed) Send(value interface{}) (nsent int) {
 
 	f.once.Do(f.init)
 	<-f.sendLock
+	verifPoint(f, "send_lock", reflect.Value{})
 
 	// Add new cases from the inbox after taking the send lock.
 	f.mu.Lock()
 	f.sendCases = append(f.sendCases, f.inbox...)
 	f.inbox = nil
+	verifPoint(f, "send_merge", reflect.Value{})
 
 	if !f.typecheck(rvalue.Type()) {
 		f.sendLock <- struct{}{}
@@ -154,7 +162,9 @@ func (f *Feed) Send(value interface{}) (nsent int) {
 		// This should usually succeed if subscribers are fast enough and have free
 		// buffer space.
 		for i := firstSubSendCase; i < len(cases); i++ {
+			verifPoint(f, "try", cases[i].Chan)
 			if cases[i].Chan.TrySend(rvalue) {
+				verifPoint(f, "try_ok", cases[i].Chan)
 				nsent++
 				cases = cases.deactivate(i)
 				i--
@@ -164,14 +174,17 @@ func (f *Feed) Send(value interface{}) (nsent int) {
 			break
 		}
 		// Select on all the receivers, waiting for them to unblock.
+		verifPoint(f, "select_enter", reflect.Value{})
 		chosen, recv, _ := reflect.Select(cases)
 		if chosen == 0 /* <-f.removeSub */ {
+			verifPoint(f, "select_remove", recv)
 			index := f.sendCases.find(recv.Interface())
 			f.sendCases = f.sendCases.delete(index)
 			if index >= 0 && index < len(cases) {
 				cases = f.sendCases[:len(cases)-1]
 			}
 		} else {
+			verifPoint(f, "select_sent", cases[chosen].Chan)
 			cases = cases.deactivate(chosen)
 			nsent++
 		}
@@ -181,6 +194,7 @@ func (f *Feed) Send(value interface{}) (nsent int) {
 	for i := firstSubSendCase; i < len(f.sendCases); i++ {
 		f.sendCases[i].Send = reflect.Value{}
 	}
+	verifPoint(f, "send_unlock", reflect.Value{})
 	f.sendLock <- struct{}{}
 	return nsent
 }
